@@ -7,8 +7,6 @@ import (
 	"github.com/moorara/algo/sort"
 )
 
-var h = fnv.New64()
-
 // Strings is a list of grammar strings, each representing a sequence of grammar symbols.
 type Strings []grammar.String[grammar.Symbol]
 
@@ -40,7 +38,9 @@ func eqStrings(lhs, rhs Strings) bool {
 }
 
 func hashStrings(s Strings) uint64 {
-	h.Reset()
+	// The hasher is local to the call: a hasher shared by all calls would be reset and written
+	// by concurrent parsers at the same time.
+	h := fnv.New64()
 
 	sort.Quick(s, grammar.CmpString)
 	for _, α := range s {
